@@ -32,6 +32,71 @@ type crashSnap struct {
 	task  string
 }
 
+// crashLife is one life of the directory: a world executes a list of operations and every mutating filesystem
+// operation (and a torn prefix of every write) is a crash point at which the tree is copied.
+type crashLife struct {
+	w      *World
+	ops    []Op
+	snaps  []crashSnap
+	before []*Model
+	after  []*Model
+	done   int
+}
+
+func (x *X) runLife(w *World, root string, ops []Op, maxSnaps int, tag string) *crashLife {
+	l := &crashLife{w: w, ops: ops, before: make([]*Model, len(ops)+1), after: make([]*Model, len(ops)+1)}
+	fs := x.sim.FS
+	hook := func(k int, op, path string, phase, n int) {
+		if len(l.snaps) >= maxSnaps {
+			return
+		}
+		dir := filepath.Join(x.root, fmt.Sprintf("%s-%d-%d", tag, k, phase))
+		if err := copyTree(root, dir); err != nil {
+			return
+		}
+		task := ""
+		if t := simrt.Cur(); t != nil {
+			task = t.Name
+		}
+		l.snaps = append(l.snaps, crashSnap{dir: dir, k: k, phase: phase, op: op, path: strings.ReplaceAll(path, root, ""), opIdx: x.opIdx, task: task})
+	}
+	fs.OnMut = hook
+	for i, op := range ops {
+		x.opIdx = i
+		l.before[i] = w.m.clone()
+		nv := len(x.out.Viol)
+		w.exec(op)
+		l.after[i] = w.m.clone()
+		l.done = i + 1
+		x.mixs(op.K + op.Mode)
+		x.noteViolations(nv)
+		if x.stop || (len(x.out.Viol) > nv && !x.resynced) {
+			break
+		}
+		x.resynced = false
+	}
+	// Close is an operation too (it collects)
+	x.opIdx = l.done
+	l.before[l.done] = w.m.clone()
+	if !w.k.readOnly() {
+		w.markCollectable()
+	}
+	func() {
+		defer func() { _ = recover() }()
+		_ = w.close()
+	}()
+	w.settle()
+	l.after[l.done] = w.m.clone()
+	fs.OnMut = nil
+	return l
+}
+
+func (l *crashLife) drop() {
+	for _, s := range l.snaps {
+		_ = os.RemoveAll(s.dir)
+	}
+}
+
 func engineCrash(x *X) {
 	p := x.p
 	materialise(p.Objs)
@@ -41,75 +106,50 @@ func engineCrash(x *X) {
 	if p.Knobs.Preseed != "" {
 		preseed(w, p.Knobs.Preseed)
 	}
-	var snaps []crashSnap
-	maxSnaps := 600
 	fs := x.sim.FS
 	fs.Torn = p.Knobs.Torn
-	hook := func(k int, op, path string, phase, n int) {
-		if len(snaps) >= maxSnaps {
-			return
-		}
-		dir := filepath.Join(x.root, fmt.Sprintf("snap-%d-%d", k, phase))
-		if err := copyTree(root, dir); err != nil {
-			return
-		}
-		task := ""
-		if t := simrt.Cur(); t != nil {
-			task = t.Name
-		}
-		snaps = append(snaps, crashSnap{dir: dir, k: k, phase: phase, op: op, path: strings.ReplaceAll(path, root, ""), opIdx: x.opIdx, task: task})
-	}
 	w.open()
 	ops := p.Clients[0]
-	before := make([]*Model, len(ops)+1)
-	after := make([]*Model, len(ops)+1)
-	fs.OnMut = hook
-	done := 0
-	for i, op := range ops {
-		x.opIdx = i
-		before[i] = w.m.clone()
-		nv := len(x.out.Viol)
-		w.exec(op)
-		after[i] = w.m.clone()
-		done = i + 1
-		x.mixs(op.K + op.Mode)
-		x.noteViolations(nv)
-		if x.stop || (len(x.out.Viol) > nv && !x.resynced) {
-			break
-		}
-		x.resynced = false
-	}
-	// Close is an operation too (it collects)
-	x.opIdx = done
-	before[done] = w.m.clone()
-	if !w.k.readOnly() {
-		w.markCollectable()
-	}
-	func() {
-		defer func() { _ = recover() }()
-		_ = w.close()
-	}()
-	w.settle()
-	after[done] = w.m.clone()
-	fs.OnMut = nil
+	l := x.runLife(w, root, ops, 600, "snap")
+	done := l.done
 	clean := !x.stop && (len(x.out.Viol) == 0 || x.allResynced)
+	// the crash point after which the history goes on (second life): chosen before any judging, its tree kept pristine
+	var second *crashSnap
+	life2 := filepath.Join(x.root, "life2")
+	if clean && p.Knobs.Lives > 1 && len(l.snaps) > 0 {
+		var cand []int
+		for i, s := range l.snaps {
+			if s.opIdx < done { // (not Close: nothing of the history would be left)
+				cand = append(cand, i)
+			}
+		}
+		if len(cand) > 0 {
+			s := l.snaps[cand[int(splitmix(p.Seed^0x2d11fe)%uint64(len(cand)))]]
+			if copyTree(s.dir, life2) == nil {
+				second = &s
+			}
+		}
+	}
 	if clean {
-		for _, s := range snaps {
+		for _, s := range l.snaps {
 			if s.opIdx > done {
 				continue
 			}
-			x.judgeSnapshot(w, s, before[s.opIdx], after[s.opIdx], ops)
+			x.judgeSnapshot(w, s, l.before[s.opIdx], l.after[s.opIdx], ops)
 			x.out.CrashPoints++
 			if len(x.out.Viol) > 0 && !x.allResynced {
 				break
 			}
 		}
 	}
-	for _, s := range snaps {
-		_ = os.RemoveAll(s.dir)
+	l.drop()
+	nsnaps := len(l.snaps)
+	if second != nil && (len(x.out.Viol) == 0 || x.allResynced) {
+		nsnaps += x.secondLife(w, *second, life2, l.before[second.opIdx], l.after[second.opIdx], ops)
 	}
+	_ = os.RemoveAll(life2)
 	x.out.NonTrivial = x.out.CrashPoints > 3
-	x.mix(uint64(len(snaps)))
+	x.mix(uint64(nsnaps))
 	var ol []string
 	for i, op := range ops {
 		if i >= 10 {
@@ -117,7 +157,192 @@ func engineCrash(x *X) {
 		}
 		ol = append(ol, op.String())
 	}
-	x.out.Sample = fmt.Sprintf(`{"seed":%d,"profile":%q,"torn_writes":%v,"ops":[%s],"crash_points":%d,"mutating_fs_ops":%d}`, p.Seed, p.Profile, p.Knobs.Torn, strings.Join(ol, ","), x.out.CrashPoints, fs.NMut)
+	x.out.Sample = fmt.Sprintf(`{"seed":%d,"profile":%q,"torn_writes":%v,"lives":%d,"ops":[%s],"crash_points":%d,"mutating_fs_ops":%d}`, p.Seed, p.Profile, p.Knobs.Torn, p.Knobs.Lives, strings.Join(ol, ","), x.out.CrashPoints, fs.NMut)
+}
+
+// secondLife: the process died at crash point s; a new server is started on that tree, the rest of the history is
+// executed against it (judged operation by operation against the model the recovered tree corresponds to), and every
+// mutating filesystem operation of that second life is a crash point again (crash, recovery, work, crash, recovery).
+func (x *X) secondLife(orig *World, s crashSnap, root string, mB, mA *Model, ops []Op) int {
+	rest := ops[s.opIdx+1:]
+	if len(rest) == 0 {
+		return 0
+	}
+	rw := newWorld(x, orig.k, root, "second-life")
+	rw.m = mA.clone()
+	for d := range mB.usedDigests {
+		rw.m.usedDigests[d] = true
+	}
+	for t := range mB.usedTags {
+		rw.m.usedTags[t] = true
+	}
+	for r := range orig.tainted {
+		rw.tainted[r] = true
+	}
+	sup := x.suppress
+	x.suppress = true
+	rw.quiet = true
+	rw.open()
+	// which state did the crash leave, repository by repository: the one before the interrupted operation or the one after it
+	m2 := mA.clone()
+	for _, repo := range orig.allRepoNames() {
+		if orig.tainted[repo] {
+			continue
+		}
+		o := rw.observe(repo)
+		dB := explain(mB.repo(repo), o, mA.repo(repo), rw.k)
+		dA := explain(mA.repo(repo), o, nil, rw.k)
+		switch {
+		case len(dA) == 0 && len(dB) == 0:
+			if repoShape(mB.repo(repo)) != repoShape(mA.repo(repo)) {
+				// both explain what is served although they differ (content a collection may or may not have removed):
+				// the history cannot be continued against one model
+				x.out.probe("second-life-ambiguous")
+				x.suppress = sup
+				_ = rw.close()
+				rw.settle()
+				return 0
+			}
+		case len(dA) == 0:
+		case len(dB) == 0:
+			cb := mB.clone()
+			br := cb.repo(repo)
+			// content of the interrupted request that was left behind unreferenced is there, and collectable
+			for d, b := range mA.repo(repo).blobs {
+				if _, ok := br.blobs[d]; !ok && strings.HasPrefix(o.items["blob "+d], "200") {
+					bb := *b
+					bb.maybeGone = true
+					br.blobs[d] = &bb
+				}
+			}
+			m2.repos[repo] = br
+		default:
+			// neither: reported by the first-level judge (or a known family); no second life
+			x.out.probe("second-life-unexplained")
+			x.suppress = sup
+			_ = rw.close()
+			rw.settle()
+			return 0
+		}
+	}
+	// an artifact push or delete is two index saves (manifest entry, referrers response; known, recorded): a crash between
+	// them is invisible as long as the listing of that subject is not demanded (absent subject), and would be attributed
+	// to a later operation of the second life. The chosen model must explain the listings exactly, or there is no second life
+	if rw.k.referrerOn() {
+		for _, mm := range []*Model{mA, mB} {
+			for _, mr := range mm.repos {
+				for _, a := range mr.mans {
+					if a.view.subject != "" {
+						rw.m.usedDigests[a.view.subject] = true // (a subject that was never pushed is listed as well)
+					}
+				}
+			}
+		}
+		for _, repo := range orig.allRepoNames() {
+			if orig.tainted[repo] {
+				continue
+			}
+			o := rw.observe(repo)
+			mr := m2.repo(repo)
+			want := map[string]map[string]bool{}
+			for d, a := range mr.mans {
+				if a.view.subject != "" {
+					if want[a.view.subject] == nil {
+						want[a.view.subject] = map[string]bool{}
+					}
+					want[a.view.subject][d] = true
+				}
+			}
+			for key, val := range o.items {
+				sj, ok := strings.CutPrefix(key, "refs ")
+				if !ok {
+					continue
+				}
+				got := map[string]bool{}
+				if val != "" && val != "!" {
+					for _, g := range strings.Split(val, ",") {
+						got[g] = true
+					}
+				}
+				same := len(got) == len(want[sj])
+				for g := range got {
+					same = same && want[sj][g]
+				}
+				if !same {
+					x.out.probe("second-life-listing-between-two-saves")
+					x.suppress = sup
+					_ = rw.close()
+					rw.settle()
+					return 0
+				}
+			}
+		}
+	}
+	for _, ss := range m2.sess {
+		if ss.open {
+			ss.open, ss.endedHow = false, "restart"
+		}
+	}
+	rw.m = m2
+	rw.quiet = false
+	x.suppress = sup
+	x.out.probe("second-life")
+	if traceOn {
+		fmt.Printf("SECOND LIFE after crash at fs op #%d phase %d (%s %s) during op %d\n", s.k, s.phase, s.op, s.path, s.opIdx)
+		for _, repo := range orig.allRepoNames() {
+			b, _ := os.ReadFile(filepath.Join(root, repo, "index.json"))
+			fmt.Printf("  %s/index.json: %s\n", repo, b)
+		}
+	}
+	nv := len(x.out.Viol)
+	l := x.runLife(rw, root, rest, 200, "snap2")
+	if traceOn {
+		for _, repo := range orig.allRepoNames() {
+			b, _ := os.ReadFile(filepath.Join(root, repo, "index.json"))
+			fmt.Printf("  end of second life %s/index.json: %s\n", repo, b)
+		}
+	}
+	// violations of the second life name themselves
+	for i := nv; i < len(x.out.Viol); i++ {
+		v := &x.out.Viol[i]
+		if !strings.Contains(v.Detail, "second life") {
+			v.Detail = fmt.Sprintf("in the second life (after a crash before fs op #%d during operation %d, %s, and recovery): %s", s.k, s.opIdx, opShape(ops, s.opIdx), v.Detail)
+		}
+	}
+	clean := !x.stop && (len(x.out.Viol) == 0 || x.allResynced)
+	if clean {
+		for _, s2 := range l.snaps {
+			if s2.opIdx > l.done {
+				continue
+			}
+			x.judgeSnapshot(rw, s2, l.before[s2.opIdx], l.after[s2.opIdx], rest)
+			x.out.CrashPoints++
+			x.out.probe("second-life-crash-point")
+			if len(x.out.Viol) > 0 && !x.allResynced {
+				break
+			}
+		}
+	}
+	l.drop()
+	return len(l.snaps)
+}
+
+// repoShape is what of a model repository is observable through the API.
+func repoShape(r *MRepo) string {
+	var sb strings.Builder
+	for _, d := range sortedKeys(r.blobs) {
+		fmt.Fprintf(&sb, "b%s%v;", d, r.blobs[d].maybeGone)
+	}
+	for _, d := range sortedKeys(r.mans) {
+		fmt.Fprintf(&sb, "m%s%v;", d, r.mans[d].maybeGone)
+	}
+	for _, t := range sortedKeys(r.tags) {
+		fmt.Fprintf(&sb, "t%s=%s;", t, r.tags[t])
+	}
+	for _, d := range sortedKeys(r.blobDeleted) {
+		fmt.Fprintf(&sb, "x%s;", d)
+	}
+	return sb.String()
 }
 
 func opShape(ops []Op, i int) string {
@@ -477,6 +702,11 @@ func planC09(prop string, seed uint64, tier string, idx int) *Plan {
 	k.Torn = idx%2 == 1
 	if k.Torn {
 		g.p.Profile = "crash points + torn writes"
+	}
+	if idx%3 == 2 {
+		// crash, recovery, the rest of the history on the recovered tree, crash again, recovery
+		k.Lives = 2
+		g.p.Profile += " + second life"
 	}
 	images, indexes, arts := g.gcGraph()
 	for _, o := range g.p.Objs {
